@@ -1,11 +1,12 @@
 """C13 — active fabric (see DESIGN §8): Lean Conc.Fab model tied to the real fabric threads under dsched."""
-import fabric_corr, ao_corr
+import fabric_corr, ao_corr, conc_corr
 
 
 def explore(run, lean):
     fabric_corr.explore(run, "C13", 200 if run.tier == "quick" else 4000)
     fabric_corr.explore_faults(run, "C13", 60 if run.tier == "quick" else 1500)
     ao_corr.explore_fabric_stop(run, 60 if run.tier == "quick" else 1500)
+    conc_corr.explore_fabric_stop(run, 40 if run.tier == "quick" else 1000)
     run.extra["rule"] = ("(a) scenarios: 1-4 subscriber queues (plain deques and active-object LockingDeques, several of them empty = equal "
                          "contents), one or two client threads issuing subscribe/publish/start/stop/clear/is_alive (start/stop/clear "
                          "from one thread only); half of them structured (subscribe*, publish* before the first start = maximal "
@@ -13,11 +14,12 @@ def explore(run, lean):
                          "replayed on the Lean model and compared per step and on the final registry, queue contents, thread counts; "
                          "(b) fault stream (implementation-side oracle only: the model has no dying thread): a subscriber whose append raises kills one delivery thread, then start() / publish / stop(): at most one live thread per kind at every step, is_alive() true after the repair, stop() returns and nothing is delivered after it; "
                          "(c) a real active object posted to before and after ActiveFabric().stop() returned: a wake-up after the stop runs no "
-                         "step and ends the object's thread")
+                         "step and ends the object's thread; (d) posters, the consumer and a fabric-stopping thread under every interleaving, replayed "
+                         "on the Lean system Conc.LDFab (theorems C13_stop_*)")
     run.assumptions.append("queue.PriorityQueue.get returns the minimum for FabricEvent.__lt__; GIL atomicity of each Queue primitive")
 
 
 def replay(case):
     if case.get("case", case).get("what") == "fabric-stop":
-        return ao_corr.replay(case)
+        return (conc_corr if "scenario" in case.get("case", case) else ao_corr).replay(case)
     return fabric_corr.replay(case)
